@@ -123,8 +123,15 @@ fn read_any(schema: &apache_avro::Schema, bytes: &[u8], plan: &SourcePlan) -> Re
 fn read_typed<T: Corp>(schema: &apache_avro::Schema, bytes: &[u8], plan: &SourcePlan) -> Result<Out<Value>, String> {
     guarded(|| {
         let mut src = SimSource::new(bytes, plan.clone());
-        let rd = GenericDatumReader::builder(schema).build().expect("datum reader");
-        let res = rd.read_deser::<T>(&mut src).map(|t| t.to_value()).map_err(|e| e.to_string());
+        // the typed value through the generic reader's read_deser and, for every other input
+        // length, through the typed reader built from the type's own schema
+        let res = if bytes.len() % 2 == 0 {
+            let rd = GenericDatumReader::builder(schema).build().expect("datum reader");
+            rd.read_deser::<T>(&mut src).map(|t| t.to_value()).map_err(|e| e.to_string())
+        } else {
+            let rd = apache_avro::reader::datum::SpecificDatumReader::<T>::builder().build().expect("typed datum reader");
+            rd.read(&mut src).map(|t| t.to_value()).map_err(|e| e.to_string())
+        };
         Out { res, pos: src.pos, calls: src.calls, eintrs: src.eintrs }
     })
 }
